@@ -15,6 +15,7 @@ import (
 	"path/filepath"
 	"regexp"
 	"runtime"
+	"runtime/debug"
 	"strconv"
 	"strings"
 	"syscall"
@@ -38,18 +39,33 @@ func fuzzTarget(f *testing.F, name string) {
 		f.Add(s)
 	}
 	g := rapid.Custom(tg.gen)
-	for i := 0; i < 24; i++ {
-		f.Add(g.Example(i))
+	for i := 0; i < 256; i++ {
+		f.Add(g.Example(i)) // deterministic structure-aware examples: valid, mutated and random cases
 	}
 	child := os.Getenv(fuzzChildEnv) != ""
+	if child && inFuzzWorker() {
+		// a fatal runtime error or a panic in a goroutine of the code under test kills the worker; the engine
+		// discards the worker's stderr, so duplicate the crash report into a file the wrapper can read
+		if cf, err := os.Create(filepath.Join(outDir(), fmt.Sprintf("worker-crash-%d.txt", os.Getpid()))); err == nil {
+			_ = debug.SetCrashOutput(cf, debug.CrashOptions{})
+		}
+	}
 	f.Fuzz(func(t *testing.T, data []byte) {
 		if child {
 			// no per-case statistics in the fuzz workers (millions of executions); violations only
-			data = clip(data)
+			if len(data) > maxInput {
+				data = data[:maxInput]
+			}
+			data = clip(steerFuzz(tg, data))
 			r := invoke(tg, data)
 			if r.panicked {
 				if tg.cleanup != nil {
 					tg.cleanup()
+				}
+				if sig := r.sig(tg); !vstat.IsListed(sig) {
+					// the exact executed bytes (after steering) are the replay unit
+					writeCaseFile(filepath.Join(outDir(), "violations", currentTest+"__"+tg.name+".json"),
+						caseFile{Target: tg.name, Sig: sig, Hex: hex.EncodeToString(data), Note: fmt.Sprint(r.val)})
 				}
 				vstat.Fail(t, r.sig(tg), "target %s panicked: %v\ninput (%d bytes, selectors included): %s\nstack:\n%s", tg.name, r.val, len(data), hex.EncodeToString(data), r.stack)
 			}
@@ -75,7 +91,10 @@ var (
 // still mutates from the seeded corpus, only without coverage guidance.
 func fuzzBinary() (string, bool) {
 	bdir, root := os.Getenv("VERIF_BUILD"), os.Getenv("VERIF_ROOT")
-	if bdir == "" || root == "" || os.Getenv("VERIF_C09_FUZZ_NOINSTRUMENT") != "" {
+	// Measured on this repository: with every dependency instrumented the engine manages 5-500 execs/s per
+	// target (40 s ~ 10^2..10^4 executions), the plain binary 5k-60k execs/s (40 s ~ 10^5..10^6).  Coverage
+	// guidance is therefore opt-in; by default the engine mutates the (large) seeded corpus without it.
+	if bdir == "" || root == "" || os.Getenv("VERIF_C09_FUZZ_INSTRUMENT") == "" {
 		return os.Args[0], false
 	}
 	self, err := os.Stat(os.Args[0])
@@ -145,6 +164,30 @@ func nativeFuzz(t *testing.T, fuzzName, targetName string) {
 	}
 	bin, instrumented := fuzzBinary()
 	vstat.Note("native-fuzz:coverage-instrumented", instrumented)
+	for attempt := 1; ; attempt++ {
+		verdict, msg := nativeFuzzOnce(t, bin, fuzzName, targetName, dur, d, out, env)
+		switch verdict {
+		case "ok":
+			return
+		case "violation":
+			t.Fatalf("%s", msg)
+		default:
+			if attempt == 1 {
+				// a worker death that neither reproduces nor left a crash report: run once more before giving up
+				vstat.Note("native-fuzz:"+targetName+":retried", msg[:min(len(msg), 300)])
+				continue
+			}
+			t.Fatalf("INCONCLUSIVE: %s", msg)
+		}
+	}
+}
+
+// nativeFuzzOnce returns ("ok"|"violation"|"inconclusive", message).
+func nativeFuzzOnce(t *testing.T, bin, fuzzName, targetName, dur string, d time.Duration, out string, env []string) (string, string) {
+	old, _ := filepath.Glob(filepath.Join(out, "worker-crash-*.txt"))
+	for _, f := range old {
+		_ = os.Remove(f)
+	}
 	ctx, cancel := context.WithTimeout(context.Background(), d+4*time.Minute)
 	defer cancel()
 	cmd := exec.CommandContext(ctx, bin, "-test.run=^$", "-test.fuzz=^"+fuzzName+"$", "-test.fuzztime="+dur,
@@ -160,25 +203,52 @@ func nativeFuzz(t *testing.T, fuzzName, targetName string) {
 	vstat.Class("native-fuzz-execs:"+targetName, int64(execs))
 	vstat.Note("native-fuzz:"+targetName, fmt.Sprintf("%s, %d execs", dur, execs))
 	if runErr == nil {
-		return
+		return "ok", ""
+	}
+	if !strings.Contains(text, "Failing input written") && !strings.Contains(text, "VIOLATION sig=") &&
+		!strings.Contains(text, "C09 watchdog") && strings.Contains(text, "context deadline exceeded") {
+		// the engine reports its own -fuzztime expiry as a failure when a worker is mid-exec (golang/go#48157 family)
+		vstat.Note("native-fuzz:"+targetName+":deadline-race", true)
+		return "ok", ""
 	}
 	tail := text
 	if len(tail) > 6000 {
 		tail = tail[len(tail)-6000:]
 	}
-	kept := ""
-	if m := reCrasher.FindStringSubmatch(text); m != nil {
-		src := m[1]
-		if !filepath.IsAbs(src) {
-			src = filepath.Join(out, src)
-		}
-		if raw, err := os.ReadFile(src); err == nil {
-			kept = filepath.Join(out, "violations", t.Name()+"__"+filepath.Base(src)+".fuzz")
-			_ = os.MkdirAll(filepath.Dir(kept), 0o755)
-			_ = os.WriteFile(kept, raw, 0o644)
+	// crash reports of dead workers
+	crash := ""
+	cfs, _ := filepath.Glob(filepath.Join(out, "worker-crash-*.txt"))
+	for _, f := range cfs {
+		if cb, err := os.ReadFile(f); err == nil && len(cb) > 0 {
+			crash += string(cb)
 		}
 	}
+	if len(crash) > 8000 {
+		crash = crash[:8000]
+	}
+	crasher := ""
+	var crasherRaw []byte
+	if m := reCrasher.FindStringSubmatch(text); m != nil {
+		crasher = m[1]
+		if !filepath.IsAbs(crasher) {
+			crasher = filepath.Join(out, crasher)
+		}
+		crasherRaw, _ = os.ReadFile(crasher)
+	}
+	keep := func(dir string) string {
+		if exact := filepath.Join(out, "violations", t.Name()+"__"+targetName+".json"); fileExists(exact) && dir == "violations" {
+			return exact
+		}
+		if crasherRaw == nil {
+			return ""
+		}
+		p := filepath.Join(out, dir, t.Name()+"__"+filepath.Base(crasher)+".fuzz")
+		_ = os.MkdirAll(filepath.Dir(p), 0o755)
+		_ = os.WriteFile(p, crasherRaw, 0o644)
+		return p
+	}
 	if v := reViol.FindString(text); v != "" {
+		kept := keep("violations")
 		if kept == "" {
 			// failure on a seed corpus entry: the engine writes no file; keep the input from the message
 			if m := reInput.FindStringSubmatch(text); m != nil {
@@ -186,10 +256,16 @@ func nativeFuzz(t *testing.T, fuzzName, targetName string) {
 				writeCaseFile(kept, caseFile{Target: targetName, Hex: m[1], Note: v})
 			}
 		}
-		t.Fatalf("%s\nnative fuzz crasher kept as %s\n%s", v, kept, tail)
+		return "violation", fmt.Sprintf("%s\nnative fuzz crasher kept as %s\n%s", v, kept, tail)
 	}
-	if kept != "" && (strings.Contains(text, "C09 watchdog") || strings.Contains(text, "hung or terminated unexpectedly")) {
-		// a worker died on the watchdog: confirm in isolation
+	if strings.Contains(crash, "/pkg/") && strings.Contains(crash, os.Getenv("VERIF_REPO")) && os.Getenv("VERIF_REPO") != "" {
+		// the worker process died in the code under test (goroutine panic / fatal error): death of the process
+		kept := keep("violations")
+		return "violation", fmt.Sprintf("VIOLATION sig=C09/%s/process-death: fuzz worker died in the code under test; last input kept as %s\n%s\n%s", targetName, kept, crash, tail)
+	}
+	if crasherRaw != nil && (strings.Contains(text, "C09 watchdog") || strings.Contains(text, "hung or terminated unexpectedly")) {
+		// a worker died (watchdog or otherwise): confirm the recorded input in isolation
+		kept := keep("unconfirmed")
 		ienv := append(append([]string{}, env...), isoEnv+"="+targetName+":"+kept, isoOriginEnv+"="+t.Name())
 		ictx, icancel := context.WithTimeout(context.Background(), 3*time.Minute)
 		defer icancel()
@@ -197,9 +273,14 @@ func nativeFuzz(t *testing.T, fuzzName, targetName string) {
 		ic.Dir, ic.Env = out, ienv
 		ib, _ := ic.CombinedOutput()
 		if v := reViol.FindString(string(ib)); v != "" {
-			t.Fatalf("%s\nnative fuzz crasher kept as %s\n%s", v, kept, string(ib))
+			return "violation", fmt.Sprintf("%s\nnative fuzz crasher kept as %s\n%s", v, keep("violations"), string(ib))
 		}
-		t.Fatalf("INCONCLUSIVE: native fuzz worker of %s died and the input did not reproduce in isolation\n%s\n%s", fuzzName, string(ib), tail)
+		return "inconclusive", fmt.Sprintf("native fuzz worker of %s died and the recorded input (%s) did not reproduce in isolation\nworker crash report: %q\n%s\n%s", fuzzName, kept, crash, string(ib), tail)
 	}
-	t.Fatalf("INCONCLUSIVE: native fuzz run of %s failed without a violation: %v\n%s", fuzzName, runErr, tail)
+	return "inconclusive", fmt.Sprintf("native fuzz run of %s failed without a violation: %v\nworker crash report: %q\n%s", fuzzName, runErr, crash, tail)
+}
+
+func fileExists(p string) bool {
+	_, err := os.Stat(p)
+	return err == nil
 }
